@@ -409,6 +409,9 @@ func ExecConformance(c *Check, prop string, bins map[string]string, vs []Variant
 				continue
 			}
 			if s.Result.Hung {
+				if c.Violations() >= 6 {
+					continue // enough confirmed evidence; each confirmation of a hang costs ~1 min
+				}
 				if s2 := Confirm(bins[v.ID()], s, m.Env); s2.Result != nil && !s2.Result.Hung {
 					continue // slow, not stuck
 				}
